@@ -24,6 +24,19 @@ theorem no_other_delete_site : deletesElsewhere = 0 := by decide
     handler keeps refMu from the test to unload() and keeps loadedMu across unload() and the delete. -/
 theorem expired_region_is_atomic : expiredAtomic = true ∧ unloadUnderLoadedMu = true := by decide
 
+/-- The model's `pExpire` action is ONE atomic region: marking the eviction victim (`sessionDuration = 0`) and
+    deciding whether it is idle.  True of the tree iff processPending does both under one hold of the victim's
+    refMu (otherwise a victim whose last user finishes in between is never expired and the waiting request, and
+    everything queued behind it, is never answered: C02). -/
+theorem evict_region_is_atomic : evictAtomic = true := by decide
+
+/-- The model's `submit` never blocks (full queue ⇒ busy error in the same step): GetRunner's enqueue is a
+    non-blocking send in the tree. -/
+theorem submit_never_blocks : enqueueNonBlocking = true := by decide
+
+/-- `pDrainUnloaded` / `pWaitUnload` consume an unload event and change nothing else (in particular not `loaded`) -/
+theorem wait_unload_is_pure : waitUnloadPure = true := by decide
+
 /-- C01 for the tree's variant -/
 theorem tree_closed_runner_has_no_user {mr mq ds : Nat} {s : State}
     (h : Reach treeVariant (Sched.init mr mq ds) s) (r : Rid) (hr : r < s.nRunners)
